@@ -639,7 +639,8 @@ func FuzzyMatchV2(caseSensitive bool, normalize bool, forward bool, input *util.
 				}
 				i--
 			}
-			preferMatch = C[I+j0] > 1 || I+width+j0+1 < len(C) && C[I+width+j0+1] > 0
+			// Cells to the left of F[i+1] in the next row are never written
+			preferMatch = C[I+j0] > 1 || I+width+j0+1 < len(C) && j+1 >= int(F[I/width+1]) && C[I+width+j0+1] > 0
 			j--
 		}
 	}
